@@ -77,7 +77,55 @@ def run_c17(ctx):
     ctx.add_result(res)
 
 
+def run_c11(ctx):
+    env = {"RAYON_NUM_THREADS": "4"}
+    b = ctx.build("pm")
+    ctx.run_sanitized(b, "C11", env_extra=env, tag="C11-lockstep", kind="plain")
+    # the same lockstep workload under AddressSanitizer (leak checking off: the FFI leaks outputs by design)
+    try:
+        ba = ctx.build("pm", san="asan")
+    except BuildFailed as e:
+        ctx.inconclusive.append("ASan build failed: %s" % e.log[-800:])
+        return
+    asan_env = dict(env)
+    asan_env["ASAN_OPTIONS"] = "detect_leaks=0:halt_on_error=1:abort_on_error=0:exitcode=77:allocator_may_return_null=1"
+    scale = "100" if ctx.tier == "thorough" else "40"
+    ctx.run_sanitized(ba, "C11", extra_args=["--scale", scale], env_extra=asan_env, tag="C11-lockstep-asan", kind="asan", timeout=7200)
+    if ctx.tier == "thorough":
+        vg = ["valgrind", "--tool=memcheck", "--leak-check=no", "--error-exitcode=78", "--track-origins=no", "-q"]
+        ctx.run_sanitized(b, "C11", extra_args=["--scale", "6", "--no-proofs"], env_extra={"RAYON_NUM_THREADS": "1"},
+                          tag="C11-lockstep-memcheck", kind="memcheck", wrapper=vg, timeout=7200)
+
+
+def run_c18(ctx):
+    b = ctx.build("pm")
+    ctx.run_sanitized(b, "C18", tag="C18-native", kind="plain", timeout=7200)
+    if ctx.tier != "thorough" and not os.environ.get("VERIF_C18_SANITIZERS"):
+        return
+    # ThreadSanitizer: shared-instance monitor and the rayon batch workload
+    try:
+        bt = ctx.build("pm", san="tsan")
+        supp = os.path.join(ctx.verif, "oracles", "tsan.supp")
+        env = {"TSAN_OPTIONS": "suppressions=%s halt_on_error=0 exitcode=0 report_signal_unsafe=0 history_size=4" % supp,
+               "RAYON_NUM_THREADS": "4"}
+        ctx.run_sanitized(bt, "C18", extra_args=["--only", "shared,transcript", "--scale", "15"], env_extra=env,
+                          tag="C18-tsan", kind="tsan", timeout=7200)
+    except BuildFailed as e:
+        ctx.inconclusive.append("TSan build failed: %s" % e.log[-600:])
+    # AddressSanitizer: FFI variant of the shared-instance monitor
+    try:
+        ba = ctx.build("pm", san="asan")
+        env = {"ASAN_OPTIONS": "detect_leaks=0:halt_on_error=1:exitcode=77", "RAYON_NUM_THREADS": "4"}
+        ctx.run_sanitized(ba, "C18", extra_args=["--only", "shared", "--scale", "30"], env_extra=env, tag="C18-asan", kind="asan", timeout=7200)
+    except BuildFailed as e:
+        ctx.inconclusive.append("ASan build failed: %s" % e.log[-600:])
+
+
 PLANS = {
+    "C18": {"level": "exploration", "run": run_c18,
+            "min_evaluations": {"quick": 10000, "thorough": 100000}, "min_distinct": {"quick": 100, "thorough": 150}},
+    "C11": {"level": "exploration", "run": run_c11,
+            "min_evaluations": {"quick": 1200, "thorough": 15000}, "min_distinct": {"quick": 80, "thorough": 120}},
     "C16": {"level": "fault_enumeration", "run": simple("C16", env_extra={"RAYON_NUM_THREADS": "2"}, timeout=7200),
             "min_evaluations": {"quick": 800, "thorough": 10000}, "min_distinct": {"quick": 80, "thorough": 200}},
     "C17": {"level": "exploration", "run": run_c17, "exhaustive_key": None,
